@@ -7,6 +7,10 @@ package httpx
 
 // the peer address of a connection, as a function of its host:port form (C15)
 //@ func IPFromHostPort
-//@   props C15
+//@   props C15 C09
 //@   pure
 //@   defines peerIP(hp)
+// C09: "come only from the actual connection": the peer address is the host part of the connection's
+// address as net.SplitHostPort yields it - nothing is cut off or rewritten (an IPv6 zone stays part of
+// it, so a scoped address is not mistaken for the unscoped one listed in trusted_proxies)
+//@   ensures ret0 == "" || hasPrefix(splitHost(hp), "[") || ret0 == splitHost(hp)
